@@ -303,8 +303,7 @@ def c_case(case: dict) -> str:
     from framework import cbool, clist, copt, cpair, cstr
     h = case["input"]
     depth, ins = layout_of(h["core"])
-    gap = ins is not None and depth - len(ins.split(".")) >= 2
-    lay = f"{{| core_depth := {depth}%nat; core_inside_client := {copt(ins, cstr)}; core_gap := {cbool(gap)} |}}"
+    lay = f"{{| core_depth := {depth}%nat; core_inside_client := {copt(ins, cstr)} |}}"
     codes = lambda cs: clist(str(c) for c in cs)  # noqa: E731
     reg = lambda r: clist(cpair(cstr(k), codes(v)) for k, v in r)  # noqa: E731
     calls = clist(f"{{| g_client := {cstr(s['client'])}; g_codes := {codes(declared(s['codes']))}; "
